@@ -1,0 +1,127 @@
+//go:build verif
+
+// Verification contracts for cmd/proxy, property C27 (comment-only; read by /verif/govc).
+// This file contains no executable code.
+//
+// C27: "the reply has exactly one entry for each requested topic-partition; a partition is reported successful only
+// if a broker reported success for it; the proxy resends a produce partition to another broker only when the first
+// broker rejected it as not the leader". What is decided here (for every request shape, routing table state and
+// backend behaviour - fanOutProduce / fanOutFetch are cut out as calls about whose results NOTHING is assumed):
+//   grouping   every requested partition that passes the include filter is appended to exactly one sub-request, the
+//              one registered under its owner's address, unchanged; a filtered-out partition is appended nowhere;
+//   resend     a produce partition enters the retry set only from a broker's sub-response entry whose error code is
+//              NOT_LEADER_OR_FOLLOWER (never from a transport / parse error, which is reported as REQUEST_TIMED_OUT
+//              for every partition of that sub-request); the retry regroups exactly the retry set out of the full
+//              request and never re-sends the original payload;
+//   provenance an entry copied into the merged reply is a broker's sub-response entry, unchanged; entries made up
+//              by the proxy carry REQUEST_TIMED_OUT or NOT_LEADER_OR_FOLLOWER, never success;
+//   leftovers  after the last attempt exactly the partitions still in the retry set get a NOT_LEADER entry.
+// Not decided: that the merged reply has exactly one entry per requested partition as a closed formula (needs
+// well-formed sub-responses: one entry per sub-request partition - replies that omit or duplicate partitions are
+// outside), and the topic-entry bookkeeping (topicIndices) of the grouping.
+
+package main
+
+// ---- merge helpers ----
+//@ func findOrAddTopicResponse
+//@   inline
+//@   ensures [C27.find_or_add_names_topic] result.Topic == name
+//@   ensures [C27.find_or_add_grows_by_at_most_one] len(resp.Topics) >= old(len(resp.Topics)) && len(resp.Topics) <= old(len(resp.Topics)) + 1
+//@   loop 1 invariant -1 <= rangeindex && rangeindex < len(resp.Topics) && len(resp.Topics) == old(len(resp.Topics))
+
+//@ func addErrorForAllPartitions
+//@   ghost gn int = 0
+//@   at append#1 before assert [C27.error_entry_per_partition] len(arg1) == 1 && arg1[0].Partition == part.Partition && arg1[0].ErrorCode == errorCode && arg1[0].ErrorCode == old(errorCode) && arg1[0].BaseOffset == -1 && topicResp.Topic == topic.Topic
+//@   at append#1 before set gn = gn + 1
+//@   at loopstep#2 assert [C27.error_entry_once_per_partition] gn == 1
+
+// ---- grouping ----
+//@ func (p *proxy) brokerIDToAddr
+//@   modular
+//@   nullable p
+
+// The owner lookup may refresh the proxy's metadata caches (brokerIDToAddr -> singleflight -> store): that call is cut out
+// and everything it might write is forgotten (whole heap). The include-filter decision of the iteration is therefore
+// recorded in a ghost before the lookup (glooked / gpass); on the path without a lookup it is read directly.
+//@ func (p *proxy) groupPartitionsByBroker
+//@   ghost gn int = 0
+//@   ghost glooked bool = false
+//@   ghost gpass bool = true
+//@   at LookupOwner#1 before set glooked = true
+//@   at LookupOwner#1 before set gpass = includeParts == nil || includeParts[part.Partition]
+//@   at LookupOwner#1 before assert [C27.group_owner_lookup_is_for_this_partition] arg0 == topic.Topic && arg1 == part.Partition
+//@   at append#2 before assert [C27.group_partition_unchanged] len(arg1) == 1 && arg1[0] == part
+//@   at append#2 before assert [C27.group_partition_passes_filter] ite(glooked, gpass, includeParts == nil || includeParts[part.Partition])
+//@   at append#2 before assert [C27.group_partition_goes_to_owner_group] has(groups, addr) && groups[addr] == subReq && 0 <= idx && idx < len(subReq.Topics)
+//@   at append#2 before set gn = gn + 1
+//@   at loopstep#2 assert [C27.group_included_partition_once] gn == ite(ite(glooked, gpass, includeParts == nil || includeParts[part.Partition]), 1, 0)
+
+// ---- forwardProduce: resend rule, provenance, leftovers ----
+//@ func (p *proxy) fanOutProduce
+//@   modular
+//@   nullable p, header, pool
+//@ func (cp *connPool) Return
+//@   modular
+//@   nullable cp
+
+//@ func (p *proxy) forwardProduce
+//@   requires p.logger != nil
+//@   loop 1 invariant [C27.retry_payload_dropped] merged != nil && (attempt > 0 ==> len(originalPayload) == 0)
+//@   at fanOutProduce#1 before assert [C27.retry_never_resends_original_payload] attempt > 0 ==> len(arg3) == 0
+//@   at mapupdate#2 before assert [C27.resend_only_not_leader] part.ErrorCode == 6 && key == part.Partition && r.err == nil
+//@   at append#1 before assert [C27.merged_entry_is_broker_entry] len(arg1) == 1 && arg1[0] == part && part.ErrorCode != 6 && r.err == nil && tr.Topic == topic.Topic
+//@   at addErrorForAllPartitions#1 before assert [C27.transport_error_reported_as_timeout] r.err != nil && arg0 == merged && arg1 == r.subReq && arg2 == 7
+//@   at groupPartitionsByBroker#1 before assert [C27.regroup_exactly_the_retry_set] arg1 == fullReq && arg2 == failedPartitions
+//@   at append#2 before assert [C27.leftover_reported_not_leader] len(arg1) == 1 && failedParts[part.Partition] && arg1[0].Partition == part.Partition && arg1[0].ErrorCode == 6 && tr.Topic == topic.Topic
+//@   at EncodeResponse#* before assert [C27.reply_is_merged] as(arg2, "*kmsg.ProduceResponse") == merged
+//@   at EncodeResponse#* before stop
+
+// ---- fetch: same structure; a fetch may also be retried after a transport / decode error (reads are idempotent),
+// except on the last attempt, where the sub-request's partitions are reported as REQUEST_TIMED_OUT ----
+//@ func findOrAddFetchTopicResponse
+//@   inline
+//@   ensures [C27.fetch_find_or_add_names_topic] ite(topicID != zeroID, result.TopicID == topicID, result.Topic == name)
+//@   ensures [C27.fetch_find_or_add_grows_by_at_most_one] len(resp.Topics) >= old(len(resp.Topics)) && len(resp.Topics) <= old(len(resp.Topics)) + 1
+//@   loop 1 invariant -1 <= rangeindex && rangeindex < len(resp.Topics) && len(resp.Topics) == old(len(resp.Topics))
+
+//@ func addFetchErrorForAllPartitions
+//@   ghost gn int = 0
+//@   at append#1 before assert [C27.fetch_error_entry_per_partition] len(arg1) == 1 && arg1[0].Partition == part.Partition && arg1[0].ErrorCode == old(errorCode)
+//@   at append#1 before set gn = gn + 1
+//@   at loopstep#2 assert [C27.fetch_error_entry_once_per_partition] gn == 1
+
+//@ func fetchTopicKey
+//@   modular
+
+//@ func (p *proxy) groupFetchPartitionsByBroker
+//@   ghost gn int = 0
+//@   ghost glooked bool = false
+//@   ghost gpass bool = true
+//@   at LookupOwner#1 before set glooked = true
+//@   at LookupOwner#1 before set gpass = includeParts == nil || includeParts[part.Partition]
+//@   at LookupOwner#1 before assert [C27.fetch_group_owner_lookup_is_for_this_partition] arg0 == topic.Topic && arg1 == part.Partition
+//@   at append#2 before assert [C27.fetch_group_partition_unchanged] len(arg1) == 1 && arg1[0] == part
+//@   at append#2 before assert [C27.fetch_group_partition_passes_filter] ite(glooked, gpass, includeParts == nil || includeParts[part.Partition])
+//@   at append#2 before assert [C27.fetch_group_partition_goes_to_owner_group] has(groups, addr) && groups[addr] == subReq && 0 <= idx && idx < len(subReq.Topics)
+//@   at append#2 before set gn = gn + 1
+//@   at loopstep#2 assert [C27.fetch_group_included_partition_once] gn == ite(ite(glooked, gpass, includeParts == nil || includeParts[part.Partition]), 1, 0)
+
+//@ func (p *proxy) fanOutFetch
+//@   modular
+//@   nullable p, header, pool
+//@ func (p *proxy) resolveTopicID
+//@   modular
+//@   nullable p
+
+//@ func (p *proxy) forwardFetch
+//@   requires p.logger != nil
+//@   loop 1 invariant [C27.fetch_retry_payload_dropped] merged != nil && 0 <= attempt && (attempt > 0 ==> len(originalPayload) == 0)
+//@   at fanOutFetch#1 before assert [C27.fetch_retry_never_resends_original_payload] attempt > 0 ==> len(arg3) == 0
+//@   at addFetchErrorForAllPartitions#1 before assert [C27.fetch_transport_error_reported_on_last_attempt] r.err != nil && attempt == 2 && arg0 == merged && arg1 == r.subReq && arg2 == 7
+//@   at mapupdate#3 before assert [C27.fetch_retry_after_transport_error_before_last_attempt] r.err != nil && attempt < 2 && key == part.Partition
+//@   at mapupdate#5 before assert [C27.fetch_retry_after_not_leader] part.ErrorCode == 6 && key == part.Partition && r.err == nil
+//@   at append#1 before assert [C27.fetch_merged_entry_is_broker_entry] len(arg1) == 1 && arg1[0] == part && part.ErrorCode != 6 && r.err == nil
+//@   at groupFetchPartitionsByBroker#1 before assert [C27.fetch_regroup_exactly_the_retry_set] arg1 == fullReq && arg2 == failedPartitions
+//@   at append#2 before assert [C27.fetch_leftover_reported_not_leader] len(arg1) == 1 && failedParts[part.Partition] && arg1[0].Partition == part.Partition && arg1[0].ErrorCode == 6
+//@   at EncodeResponse#* before assert [C27.fetch_reply_is_merged] as(arg2, "*kmsg.FetchResponse") == merged
+//@   at EncodeResponse#* before stop
